@@ -97,6 +97,17 @@ var HangTimeout = 3 * time.Minute
 
 var active *Sched
 
+var generation uint64
+
+// Generation identifies the current execution (0 outside); shims use it to reset
+// process-global state (e.g. vsync.Pool contents) at the start of every execution.
+func Generation() uint64 {
+	if active == nil {
+		return 0
+	}
+	return generation
+}
+
 // Active returns the running scheduler (nil outside an execution).
 func Active() *Sched { return active }
 
@@ -135,6 +146,7 @@ func Run(opts Options, body func()) *Outcome {
 	if s.horizon <= 0 {
 		s.horizon = 20000
 	}
+	generation++
 	active = s
 	t0 := s.newThread("main", body)
 	s.cur = t0
